@@ -1,5 +1,5 @@
 // counterexamples for harness c14::c14_unique_idx_last_leading_nulls_opt_n4 (property C14); replay: ./check C14 --replay <this file>
-// features: c14,thorough
+// features: c14
 #![allow(unused_imports)]
 use crate::c14::*;
 
